@@ -70,6 +70,11 @@ static RefLP *cp_decode (long idx)
 	mpq_t a, z; mpq_init (a); mpq_init (z);
 	char nm[16];
 	for (int c = 0; c < n; c++) { snprintf (nm, sizeof nm, "x%d", c); mpq_set_ui (a, 1 + cp_next (&st) % 9, 1); ref_add_col (L, a, z, 0, z, 1, nm); }
+	if ((idx / 30) % 2) {
+		/* every other block of 30: one column fixed at 1, one boxed in [0,2] (fixed and boxed non-basic columns in LPs with >= 3 rows) */
+		mpq_set_ui (L->lo[1], 1, 1); mpq_set_ui (L->up[1], 1, 1); L->upinf[1] = 0;
+		mpq_set_ui (L->up[2], 2, 1); L->upinf[2] = 0;
+	}
 	for (int r = 0; r < m; r++) {
 		snprintf (nm, sizeof nm, "c%d", r);
 		mpq_set_ui (a, (pack ? 6 : 3) + cp_next (&st) % 12, 1);
